@@ -33,6 +33,8 @@ class State:
         self.interrupted = None
         self.werr_limit = None
         self.werr_path = None
+        self.werr_kind = None
+        self.crash_wlimit = None
         self.err_at = None
         self.err_no = None
         self.rerr_at = None
@@ -88,6 +90,14 @@ def _mutating(kind, path, extra=None):
     rel = path[len(ST.store):]
     if ST.crash_at is not None:
         if ST.crash_at == 0:
+            if ST.crash_when == 'interrupt' and ST.crash_wlimit is not None and kind == 'wopen':
+                # the interrupt arrives INSIDE a write to this file, after `wlimit` units were written
+                ST.crash_at = None
+                ST.werr_path = path
+                ST.werr_kind = 'interrupt'
+                ST.fs.append([kind, rel])
+                ST.last_wopen = rel
+                return
             if ST.crash_when == 'interrupt':
                 # the process is interrupted (SIGINT/SIGTERM turned into an exception) immediately before this operation:
                 # the stack unwinds - finally blocks and context managers run - and then the process ends
@@ -117,6 +127,7 @@ def _mutating(kind, path, extra=None):
             # the disk fills up / fails WHILE this file is written: the open succeeds, a write fails after `limit` units
             ST.err_at = None
             ST.werr_path = path
+            ST.werr_kind = 'oserror'
             ST.fs.append([kind, rel])
             ST.last_wopen = rel
             return
@@ -191,8 +202,8 @@ def _hook(event, args):
 class _WErrFile:
     """file object whose writes fail once `limit` units (bytes / characters) were written: a short write, then the error"""
 
-    def __init__(self, f, limit, err_no, path, rel):
-        self.__dict__.update(_f=f, _limit=limit, _written=0, _err_no=err_no, _path=path, _rel=rel, _failed=False)
+    def __init__(self, f, limit, err_no, path, rel, kind='oserror'):
+        self.__dict__.update(_f=f, _limit=limit, _written=0, _err_no=err_no, _path=path, _rel=rel, _failed=False, _kind=kind)
 
     def write(self, data):
         d = self.__dict__
@@ -206,6 +217,10 @@ class _WErrFile:
                 d['_f'].flush()
             except Exception:
                 pass
+            if d['_kind'] == 'interrupt':
+                if ST.interrupted is None:
+                    ST.interrupted = {'crash': True, 'at': ['write', d['_rel'], 'interrupt'], 'last_wopen': None}
+                raise KeyboardInterrupt('injected interrupt inside write')
             if not d['_failed']:
                 d['_failed'] = True
                 ST.fired.append(['diskerr', 'write', d['_rel']])
@@ -242,6 +257,8 @@ def install_open_seam():
             p = _abspath(file)
             if p == ST.werr_path and isinstance(mode, str) and any(c in mode for c in 'wax+'):
                 ST.werr_path = None
+                if ST.werr_kind == 'interrupt':
+                    return _WErrFile(f, ST.crash_wlimit, None, p, p[len(ST.store):], 'interrupt')
                 return _WErrFile(f, ST.werr_limit, ST.err_no, p, p[len(ST.store):])
         return f
     builtins.open = _open
@@ -1160,6 +1177,7 @@ def run_process(job, out_fd):
         c = op.get('crash')
         ST.crash_at = c['k'] if c else None
         ST.crash_when = (c or {}).get('when', 'before')
+        ST.crash_wlimit = (c or {}).get('wlimit')
         e = op.get('diskerr')
         ST.err_at = e['k'] if e and not e.get('read') else None
         ST.rerr_at = e['k'] if e and e.get('read') else None
